@@ -148,7 +148,7 @@ fn cases(quick: bool) -> Vec<Case> {
 pub fn run() {
 	let cx = ctx();
 	let cs = cases(cx.quick());
-	cx.note("rule", serde_json::json!("well-formed replays emitted by the reference recorder: version x port config x deviation-bounded frame history (absence, rollback/gap, items) x fill pattern x gecko x {0,1,2} game ends x {metadata, none, empty}; plus long games (300 / 1100 frames: beyond the initial column capacity, absences around bitmap word boundaries, rollbacks; thorough: > 65,535 items); non-trivial = has an absence, rollback, item, gecko block, missing/double end or no metadata; distinct = distinct input bytes"));
+	cx.note("rule", serde_json::json!("well-formed replays emitted by the reference recorder: version x port config x deviation-bounded frame history (absence, rollback/gap, items) x fill pattern x gecko x {0,1,2} game ends x {metadata, none, empty}; plus long games (300 / 1100 frames: beyond the initial column capacity, absences around bitmap word boundaries, rollbacks; one game with 67,100 items); non-trivial = has an absence, rollback, item, gecko block, missing/double end or no metadata; distinct = distinct input bytes"));
 	cx.note("bounds", serde_json::json!({"versions": if cx.quick() {"first member of each of the 25 layout classes (+ all 784 versions with a 2-frame history)"} else {"first and last member of each layout class (+ all 784)"}, "frames": if cx.quick() {"<=3"} else {"<=4 (P_small) / <=2 (all 81 port configs)"}, "deviations": if cx.quick() {"<=2"} else {"<=3 (P_small) / <=1 (all 81)"}}));
 	cx.note("exhaustive", serde_json::json!(true));
 	cx.note("assumptions", serde_json::json!(["32-bit field values are exercised by position-unique patterns, all-ones and IEEE specials, not all 2^32 values", "the reference recorder's canonical order equals real recorders' (bound by re-deriving the repository's fixture replays)"]));
